@@ -21,12 +21,13 @@ def make_jobs(inst, rng, n):
             rp = dict(rng.choice(INVALID))
             jobs.append({"sched": {"seed": rng.randrange(1 << 30), "statuses": ["PASS"]}, "store": {}, "run_params": rp, "cap": 6000, "invalid": True})
             continue
-        rp = {"max_tries": str(rng.choice([2, 2, 3, 0, 1]))}
+        rp = {"max_tries": str(rng.choice([2, 3, 3, 4, 4, 0, 1]))}
         r = rng.random()
+        common = [["pass"], ["fail"], ["fail", "error"], ["pass", "warn"], ["warn"], ["skip"]]
         if r < 0.35:
-            rp["rerun_status"] = ",".join(s.lower() for s in rng.sample(STAT, rng.randint(1, 2)))
-        elif r < 0.7:
-            rp["stop_status"] = ",".join(s.lower() for s in rng.sample(STAT, rng.randint(1, 2)))
+            rp["rerun_status"] = ",".join(rng.choice(common + [[s.lower() for s in rng.sample(STAT, rng.randint(1, 2))]]))
+        elif r < 0.75:
+            rp["stop_status"] = ",".join(rng.choice(common + [[s.lower() for s in rng.sample(STAT, rng.randint(1, 2))]]))
         w = [6, 2, 2, 1, 1, 1, 1]
         jobs.append({"sched": {"seed": rng.randrange(1 << 30), "statuses": STAT, "weights": w},
                      "store": D.random_store(inst, rng, rng.choice([0.0, 0.5, 1.0])), "run_params": rp, "cap": 6000})
@@ -61,7 +62,7 @@ def post(inst, good, traces, v):
 
 def run(tier, seed):
     quick = tier == "quick"
-    plan = [("tut1x1", None, 40), ("tut13x2", None, 40), ("guix2", None, 24)] if quick else \
+    plan = [("tut1x1", None, 32), ("tut13x3", None, 56), ("guix2", None, 24)] if quick else \
            [("tut1x1", None, 400), ("tut13x2", None, 400), ("tut13x3", None, 300), ("guix2", None, 300), ("minx2", None, 200), ("tut13c", None, 200)]
     return D.generic_run(PID, tier, seed, plan, make_jobs, signature, describe, settings_of=settings_of, post=post,
                          rule="randomized outcome sequences over 7 reportable statuses x max_tries {0,1,2,3} x rerun/stop subsets x initial pools; "
